@@ -1,7 +1,7 @@
 (* Field-name mode against the ordinary run, for the query-bearing values of a command document. *)
 From Coq Require Import Lia.
 From Model Require Import Json Tables Walker Line Email.
-From Proofs Require Import JsonFacts TableFacts WalkerRel Survivors SurvivorsLine LineRel RfnSim.
+From Proofs Require Import JsonFacts TableFacts WalkerRel Survivors SurvivorsLine LineRel RelCorollaries RfnSim.
 Close Scope string_scope. Open Scope list_scope.
 
 Section RfnLine.
@@ -40,3 +40,28 @@ Proof.
 Qed.
 
 End RfnLine.
+
+(* with the refinement relation of the ordinary run: in field-name mode, too, every such leaf is ONE verdict applied by
+   the configured actions - for two action sets at once (placeholder mode and encryption mode) *)
+Section RfnRel.
+Variable tb : tables.
+Variable cs : consts.
+Variable c : cfg.
+Variables A1 A2 : actions.
+Hypothesis Hre : re c = None.
+
+Theorem cmd_member_rfn_rel ins k v p leaf :
+  nodup_keys v -> sib_ok A1 v -> sib_ok A2 v ->
+  jget v p = Some leaf -> is_leaf leaf -> nd leaf -> clear tb v p = true ->
+  exists d, okv cs c is_email leaf d /\
+            jget (cmd_member tb cs c A1 true ins k v) p = Some (apply_verdict A1 d leaf) /\
+            jget (cmd_member tb cs c A2 true ins k v) p = Some (apply_verdict A2 d leaf).
+Proof.
+  intros Hn H1 H2 Hg Hl Hd Hc.
+  destruct (RelCorollaries.rel3_jget cs c is_email A1 A2 _ _ _ (cmd_member_rel tb cs c A1 A2 ins k v Hn) p leaf Hg Hl) as (d & Hok & Ha & Hb).
+  exists d. split; [exact Hok|]. split.
+  - rewrite <- (cmd_member_pl tb cs c A1 Hre ins k v H1 Hn p leaf Hg Hl Hd Hc). exact Ha.
+  - rewrite <- (cmd_member_pl tb cs c A2 Hre ins k v H2 Hn p leaf Hg Hl Hd Hc). exact Hb.
+Qed.
+
+End RfnRel.
